@@ -691,6 +691,55 @@ def check_recorded_errors_are_read(ctx, d) -> None:
            construct="constructors of dsl.py recording errors into a parameter", trivial=True)
 
 
+def check_identity_keys_use_printed_values(ctx, d) -> None:
+    """R18: a helper whose result keys the table of known environments builds that key from the PRINTED form of the values.  Raw values
+    compare with Python's equality - 1 == True == 1.0, 0 == False - so {USE_GPU: true} and {USE_GPU: 1} would be one environment and the
+    component visited second is bound to the environment another call chain supplied."""
+    from checks.c15 import mapping_key_helpers
+    RID = "C06.R18-identity-keys-use-printed-values"
+    n = 0
+    for (q, kf, helper) in mapping_key_helpers(d):
+        params = {a.arg for a in helper.args.args}
+        if not params:
+            continue
+        # the values of the parameter: <param>[k] / the second variable of a loop over <param>.items() / <param>.values()
+        value_vars: Set[str] = set()
+        for x in ast.walk(helper):
+            gens = []
+            if isinstance(x, ast.For):
+                gens.append((x.target, x.iter))
+            if isinstance(x, (ast.GeneratorExp, ast.ListComp, ast.SetComp, ast.DictComp)):
+                gens.extend((g.target, g.iter) for g in x.generators)
+            for tgt, it in gens:
+                base = it.args[0] if isinstance(it, ast.Call) and call_name(it) == "sorted" and it.args else it
+                if isinstance(base, ast.Call) and isinstance(base.func, ast.Attribute) and isinstance(base.func.value, ast.Name) and base.func.value.id in params:
+                    if base.func.attr == "items" and isinstance(tgt, ast.Tuple) and len(tgt.elts) == 2 and isinstance(tgt.elts[1], ast.Name):
+                        value_vars.add(tgt.elts[1].id)
+                    if base.func.attr == "values" and isinstance(tgt, ast.Name):
+                        value_vars.add(tgt.id)
+            if isinstance(x, ast.Assign) and len(x.targets) == 1 and isinstance(x.targets[0], ast.Name) and isinstance(x.value, ast.Subscript) \
+                    and isinstance(x.value.value, ast.Name) and x.value.value.id in params:
+                value_vars.add(x.targets[0].id)
+        if not value_vars:
+            continue
+        # where such a value is put into the key: an element of a tuple that is appended / yielded by a comprehension
+        for t in [x for x in ast.walk(helper) if isinstance(x, ast.Tuple) and isinstance(x.ctx, ast.Load)]:
+            for e in t.elts:
+                uses = [y for y in ast.walk(e) if isinstance(y, ast.Name) and y.id in value_vars]
+                if not uses:
+                    continue
+                n += 1
+                ctx.analysed(helper)
+                printed = isinstance(e, ast.Call) and (call_name(e) or "").split(".")[-1] in ("str", "repr", "dumps", "format") or isinstance(e, ast.JoinedStr)
+                ctx.ob(RID, e, printed,
+                       "%s (its result keys a mapping in %s) puts the printed form of a value into the key" % (kf, q) if printed else
+                       "%s, whose result keys a mapping in %s, puts the raw value %s into the key: Python's equality makes 1, True and 1.0 (0 and False) one "
+                       "key, so the environments {USE_GPU: true} and {USE_GPU: 1} of two call chains are registered as ONE environment and the component "
+                       "visited second is bound to the dictionary the other chain supplied ('1' where 'True' was given)" % (kf, q, short(e, 30)),
+                       construct="%s.%s: values enter the identity key in printed form" % (q, kf))
+    ctx.ob(RID, d.tree, True, "%d values placed into identity keys inspected" % n, construct="identity keys of dsl.py", trivial=True)
+
+
 def run(ctx) -> None:
     ctx.explanation = (
         "Rejection clause and structural parts of the DSL 2.0 compiler: explicit-raise escape analysis of "
@@ -734,6 +783,8 @@ def run(ctx) -> None:
              "followed by the user's variables (last update / last '**'): a value from a variable file wins over an argument the entrypoint sets")
     ctx.rule("C06.R17-recorded-errors-are-read", "a constructor of dsl.py that records an error into a list parameter keeps that very list on the object "
              "(or a caller reads its list afterwards): an error must not be recorded into a list that is thrown away")
+    ctx.rule("C06.R18-identity-keys-use-printed-values", "a helper of dsl.py whose result keys a mapping (the table of known environments) puts the printed "
+             "form (str/repr) of the values into that key: raw values compare with Python's equality (1 == True == 1.0) and merge different environments")
     ctx.rule("C06.R4-unique-names", "component names are numbered over the ordered components and every name is checked against the names already used")
     ctx.assume("implicit exceptions (KeyError, pydantic internals) are outside the model; FlowIRConcrete mutators called on the freshly built "
                "description are assumed not to raise except FlowIRComponentExists, which R4 excludes")
@@ -982,6 +1033,7 @@ def run(ctx) -> None:
     check_user_variables_override_entrypoint(ctx)
     check_producer_walk_terminates(ctx, d)
     check_recorded_errors_are_read(ctx, d)
+    check_identity_keys_use_printed_values(ctx, d)
 
     # ---------------- R6 -------------------------------------------------------------------------------
     sp = d.func("OutputReference.split")
